@@ -127,6 +127,8 @@ func RunKit(run *ev.Run, mounting string) {
 	outcomes = append(outcomes, outcome{"typed-nil", func() kit.Outcome { return kit.Outcome{NilEntity: true} }})
 	outcomes = append(outcomes, outcome{"plain-error", func() kit.Outcome { return kit.Outcome{Err: errors.New("disk 100% full: \"sda\" é")} }})
 	outcomes = append(outcomes, outcome{"panic", func() kit.Outcome { return kit.Outcome{DoPanic: true, Panic: "something went wrong 50%"} }})
+	outcomes = append(outcomes, outcome{"unserializable-entity", func() kit.Outcome { return kit.Outcome{Unserializable: true} }})
+	outcomes = append(outcomes, outcome{"panic-while-serializing", func() kit.Outcome { return kit.Outcome{Explode: true} }})
 	for mask := 0; mask < 16; mask++ {
 		mask := mask
 		outcomes = append(outcomes, outcome{fmt.Sprintf("error-response-%02d", mask), func() kit.Outcome { return kit.Outcome{Err: errSubset(mask)} }})
@@ -227,10 +229,11 @@ func RunKit(run *ev.Run, mounting string) {
 				}
 				run.Count(GENERATION+".kit.error_object_snapshots", 1)
 			default:
-				text := map[string]string{"plain-error": "disk 100% full: \"sda\" é", "panic": "something went wrong 50%"}[oc.name]
+				text := map[string]string{"plain-error": "disk 100% full: \"sda\" é", "panic": "something went wrong 50%", "unserializable-entity": "cannot be serialized"}[oc.name]
 				switch {
-				case oc.name == "typed-nil" && !m.returnsEntity:
-					run.Count("observed_only.typed_nil_without_result", 1)
+				case oc.name == "typed-nil" && !m.returnsEntity,
+					(oc.name == "unserializable-entity" || oc.name == "panic-while-serializing") && !m.returnsEntity && m.kind != "get_all" && m.kind != "finder":
+					run.Count("observed_only.outcome_needs_an_entity_result", 1)
 				case w.Status < 400:
 					run.Violation(sig("success-status-for-failure"), desc)
 				case !hdr || kind != "restli.Error":
